@@ -191,7 +191,7 @@ class Scene:
 def build_mask(case):
     import autoarray as aa
     m = np.asarray(case["mask"], dtype=bool)
-    return aa.Mask2D(mask=m.copy(), pixel_scales=tuple(case["pixel_scales"]), origin=tuple(case["origin"]))
+    return aa.Mask2D(mask=gens.vary_layout(m), pixel_scales=tuple(case["pixel_scales"]), origin=tuple(case["origin"]))
 
 
 def _noown(desc, arr):
